@@ -621,6 +621,45 @@ func c15HasRaw(t, rawT reflect.Type, depth int) bool {
 	return false
 }
 
+// c15CrossPackage runs discovery calls of all three client packages against scripted multistatus
+// documents, twice and in both orders, and checks the values that are decoded from raw property values.
+func c15CrossPackage() (clause, detail string) {
+	defer func() {
+		if p := recover(); p != nil {
+			clause, detail = "cross-package-panic", fmt.Sprint(p)
+		}
+	}()
+	byName := map[string]c14Method{}
+	for _, m := range c14Methods() {
+		byName[m.Name] = m
+	}
+	order := []string{"caldav.FindCalendars", "carddav.FindAddressBooks", "webdav.Stat", "carddav.FindAddressBooks", "caldav.FindCalendars", "caldav.FindCalendarHomeSet", "carddav.FindAddressBookHomeSet", "webdav.FindCurrentUserPrincipal"}
+	for step, name := range order {
+		m, ok := byName[name]
+		if !ok {
+			return "cross-package-setup", "no client method " + name
+		}
+		res, err := m.Call(&scripted{Status: 207, CT: "application/xml; charset=utf-8", Body: m.OKBody()})
+		if err != nil {
+			return "cross-package-error", fmt.Sprintf("step %d %s: %v", step, name, err)
+		}
+		got := js(res)
+		for _, want := range map[string][]string{
+			"caldav.FindCalendars":            {`"MaxResourceSize":100`, `"Description":"d"`, `"Name":"name"`, `"VEVENT"`},
+			"carddav.FindAddressBooks":        {`"MaxResourceSize":100`, `"Description":"d"`, `"Name":"name"`, `"text/vcard"`},
+			"webdav.Stat":                     {`"Size":4`, `"ETag":"tag"`, `"MIMEType":"text/plain"`},
+			"caldav.FindCalendarHomeSet":      {`/u/c/`},
+			"carddav.FindAddressBookHomeSet":  {`/u/c/`},
+			"webdav.FindCurrentUserPrincipal": {`/u/`},
+		}[name] {
+			if !strings.Contains(got, want) {
+				return "cross-package-value-lost", fmt.Sprintf("step %d %s: result %s lacks %s", step, name, trunc(got, 400), want)
+			}
+		}
+	}
+	return "", ""
+}
+
 func c15Dump(v interface{}) string {
 	b, err := xml.Marshal(v)
 	if err != nil {
@@ -704,6 +743,24 @@ func init() {
 					Expected: "same namespace-expanded element tree", Observed: detail})
 			}
 		})
+		// (c'') the typed property structures of the three packages, used one after the other in ONE process
+		// through the public client calls that decode them from captured raw values: every value arrives
+		// whatever other package decoded a same-named structure before
+		{
+			sh := r.Shard()
+			clause, detail := c15CrossPackage()
+			for k := 0; k < 6; k++ {
+				sh.Transition()
+			}
+			sh.Clause("typed decode of the packages' own property structures, all packages in one process")
+			sh.Nontrivial("X/cross-package")
+			sh.Outcome("cross-package/" + clause)
+			if clause != "" {
+				sh.Violate(engine.Violation{Sig: "C15/" + clause, Clause: clause, Index: 1 << 40, Kind: "C15", Case: c15Case{Typed: "cross-package"},
+					Expected: "every property value of the response reaches the caller", Observed: detail})
+			}
+			r.Merge(sh)
+		}
 		typed := c15TypedCases()
 		r.Parallel(len(typed), func(i int, s *engine.Shard) {
 			s.Transition()
